@@ -95,7 +95,13 @@ def wrapper_rule(ck, F, rid, name, mode):
                                  '%s: a path reaches return without rollback() and without having established that the result is Ok(Some)' % name); ok = False
     # the function returns the closure's result unchanged on the non-failing path
     rets = [d for d in D.defs.get(0, []) if d[0] == 'assign']
-    moved = [d for d in rets if d[3]['rv']['r'] == 'use' and d[3]['rv']['a']['o'] in ('move', 'copy') and d[3]['rv']['a']['p']['l'] == res and not d[3]['rv']['a']['p']['proj']]
+    def is_res(a, n=0):
+        # the operand is the closure result, possibly through a chain of single-definition moves (an inlined helper returns through its own slot)
+        if a.get('o') not in ('move', 'copy') or a['p']['proj'] or n > 8: return False
+        if a['p']['l'] == res: return True
+        ds = D.defs.get(a['p']['l'], [])
+        return any(d_[0] == 'assign' and d_[3]['rv']['r'] == 'use' and is_res(d_[3]['rv']['a'], n + 1) for d_ in ds)
+    moved = [d for d in rets if d[3]['rv']['r'] == 'use' and is_res(d[3]['rv']['a'])]
     if not moved:
         ck.violation(rid, key + ' : result not returned', where_of(b), '%s: the closure result is not what is returned' % name); ok = False
     if ok:
